@@ -33,17 +33,13 @@ Ltac lk_facts Hf := fuel_split; repeat match goal with
   | E : auto_commit _ _ = _ |- _ => apply auto_commit_fr in E; destruct E as (E & _); apply fr_looper in E
   | E : send_commit_request _ _ _ = _ |- _ => apply send_commit_request_fr in E; destruct E as (E & _); apply fr_looper in E
   end.
-Ltac split_state_if := repeat match goal with
-  | |- context [if ?c then set_susp true _ else _] => let E := fresh "E" in destruct c eqn:E
-  | H : context [if ?c then set_susp true _ else _] |- _ => let E := fresh "E" in destruct c eqn:E
-  end.
 Ltac lk_solve := psimpl; repeat match goal with H : _ \/ _ |- _ => destruct H end; congruence.
 
 Lemma handle_looper fuel e s s' o : handle fuel e s = (Ok tt, s', o) -> fuel_ok o = true ->
   s_looper s <> Some false -> s_looper s' <> Some false.
 Proof.
   intros H Hf Hl. unfold handle in H. cbn zeta in H. destruct e;
-    unfold api_stop, api_commit, flush_pend, handle_commit_error in H; mi H; split_state_if; lk_facts Hf; lk_solve.
+    unfold api_stop, api_commit, api_shutdown, flush_pend, handle_commit_error in H; mi H; split_state_if; lk_facts Hf; lk_solve.
 Qed.
 
 Section Run.
@@ -172,7 +168,7 @@ Proof.
   unfold handle in H. cbn zeta in H. unfold success_reply. destruct e.
   - (* start *) unfold flush_pend, do_fetch, startd_errback in H. mi H; bk_close.
   - (* stop *) unfold api_stop in H. mi H; bk_facts Hf; bk_close.
-  - (* shutdown *) unfold flush_pend in H. mi H; split_state_if; bk_facts Hf; bk_close.
+  - (* shutdown *) unfold api_shutdown in H. mi H; split_state_if; bk_facts Hf; bk_close.
   - (* commit *) unfold api_commit in H. mi H; bk_facts Hf; bk_close.
   - (* offset reply *) mi H; bk_facts Hf; bk_close.
   - (* fetch reply *) mi H; bk_facts Hf; bk_close.
